@@ -51,6 +51,7 @@ type c18Event struct {
 
 type c18Sys struct {
 	withStore bool
+	down      bool // the store fails every call: caching is memory-only, purge must still work
 	cfg       *config.PikeConfig
 	e         *env.Env
 	st        map[string]*env.FaultStore
@@ -86,6 +87,11 @@ func (s *c18Sys) Reset() {
 		s.st = map[string]*env.FaultStore{"c1": env.NewFaultStore(), "c2": env.NewFaultStore()}
 		s.st["c1"].Register("fault://c1")
 		s.st["c2"].Register("fault://c2")
+		if s.down {
+			for _, f := range s.st {
+				f.Menu = func(op string, key []byte) []env.Fault { return []env.Fault{{Name: "error", Err: env.ErrInjected}} }
+			}
+		}
 	}
 	s.e = getEnv(s.cfg, key)
 	freshCaches(s.cfg)
@@ -112,7 +118,7 @@ func (s *c18Sys) Apply(ev int) (string, string, string) {
 		return "tick", "", ""
 	case "restart":
 		freshCaches(s.cfg)
-		if !s.withStore {
+		if !s.withStore || s.down {
 			s.spec = map[string]*oracle.Entry{}
 		}
 		return "restart", "", ""
@@ -126,7 +132,7 @@ func (s *c18Sys) Apply(ev int) (string, string, string) {
 			}
 		}
 		// persisted copies of purged keys must be gone, others untouched
-		if s.withStore {
+		if s.withStore && !s.down {
 			for _, cn := range []string{"c1", "c2"} {
 				for _, uri := range []string{"/k1", "/k2"} {
 					_, on := s.st[cn].Disk["GET a.com "+uri]
@@ -296,6 +302,9 @@ func init() {
 		}
 		c.runBFS("bfs-purge-nostore", newC18Sys(false), depth, nil)
 		c.runBFS("bfs-purge-store", newC18Sys(true), depth, nil)
+		down := newC18Sys(true)
+		down.down = true
+		c.runBFS("bfs-purge-store-down", down, depth, nil)
 		c.RunSched(c18Race(c, "purge-vs-fetch-nostore", false, vsched.Bounds{Preempt: pre, Tick: 0, Data: -1, Total: -1}))
 		c.RunSched(c18Race(c, "purge-vs-fetch-store", true, vsched.Bounds{Preempt: pre, Tick: 0, Data: -1, Total: -1}))
 	})
